@@ -301,6 +301,10 @@ type UnchunkWriter struct {
 
 	closing chan struct{} // closed when writer closing has started
 	closeMu sync.Mutex    // to keep Close and CloseWithError from happening simultaneously
+
+	// forced is true while w is the already closed writer of a pipe that
+	// ForceNewMessage sent to signal a message break
+	forced bool
 }
 
 // NextServiceInfo must be called once before each logical ServiceInfo.
@@ -361,6 +365,7 @@ func (w *UnchunkWriter) nextPipe(forceNewMessage bool) error {
 	}
 
 	w.w = pw
+	w.forced = forceNewMessage
 	return nil
 }
 
@@ -424,8 +429,10 @@ func (w *UnchunkWriter) CloseWithError(err error) error {
 	}
 
 	// Create a new pipe and ensure that it is sent to the corresponding
-	// ChunkReader so that the error of CloseWithError is receivable
-	if w.w == nil {
+	// ChunkReader so that the error of CloseWithError is receivable. The
+	// writer left behind by ForceNewMessage is closed already and would
+	// swallow the error.
+	if w.w == nil || w.forced {
 		pr, pw := io.Pipe()
 		// NOTE: This can deadlock if the reader is not performing a ReadChunk
 		// loop until readers is closed
